@@ -1619,4 +1619,229 @@ theorem beforeEpochStart_SB (s s' : State) (e : Nat) (hs : SStruct s) (hstat : S
         · exact hstat.recs st' c1
         · rw [c2]; exact hstat.recs st c1
 
+
+/-! ### frames, messages, blocks -/
+
+theorem SB_congr {s s' : State} (h1 : s'.streams = s.streams) (h2 : s'.active = s.active) (h3 : s'.ptrs = s.ptrs) (h : SB s) : SB s' := by
+  intro st hm i
+  rw [h1] at hm
+  have := h st hm i
+  unfold SBst ptrOfEpoch at *
+  rw [h2, h3]; exact this
+
+theorem SStat_congr {s s' : State} (h1 : s'.streams = s.streams) (h : SStat s) : SStat s' :=
+  ⟨by rw [h1]; exact h.tw, by rw [h1]; exact h.recs⟩
+
+theorem incLoop_frame (ee : Bool) : ∀ (gs : List Gauge) (s : State) (tr : Tracker) (s' : State) (tr' : Tracker),
+    incLoop ee gs s tr = .ok (s', tr') → s' = { s with gauges := s'.gauges } := by
+  intro gs
+  induction gs with
+  | nil => intro s tr s' tr' h; simp only [incLoop, Except.ok.injEq, Prod.mk.injEq] at h; rw [← h.1]
+  | cons g rest ih =>
+    intro s tr s' tr' h
+    unfold incLoop at h
+    cases hc : calcGauge s g tr with
+    | err => simp [hc] at h
+    | panic => simp [hc] at h
+    | ok t2 c =>
+      simp only [hc] at h
+      split at h
+      · exact ih _ _ _ _ h
+      · have := ih _ _ _ _ h
+        rw [this]; rfl
+
+theorem incDistribute_frame (s : State) (gs : List Gauge) (ee : Bool) (s' : State) (h : incDistribute s gs ee = .ok s') :
+    s' = { s with gauges := s'.gauges, bank := s'.bank } := by
+  unfold incDistribute at h
+  cases hl : incLoop ee gs s [] with
+  | error e => simp [hl] at h
+  | ok p =>
+    obtain ⟨s1, tr⟩ := p
+    simp only [hl] at h
+    cases hp : payAll tr s1.bank with
+    | none => simp [hp] at h
+    | some b =>
+      simp only [hp, Except.ok.injEq] at h
+      subst h
+      have := incLoop_frame ee gs s [] s1 tr hl
+      simp only; rw [this]
+
+theorem checkFinished_frame2 : ∀ (l : List Gauge) (s : State), checkFinished l s = { s with gauges := (checkFinished l s).gauges } := by
+  intro l
+  induction l with
+  | nil => intro s; rfl
+  | cons g rest ih =>
+    intro s
+    unfold checkFinished
+    split
+    · cases hc : getGauge s g.id with
+      | none => simp only; exact ih s
+      | some cur =>
+        simp only
+        have := ih (setGauge s { cur with status := .finished })
+        rw [this]; rfl
+    · exact ih s
+
+theorem incAfterEpochEnd_frame (s : State) (e : Nat) (s' : State) (h : incAfterEpochEnd s e = .ok s') :
+    s'.streams = s.streams ∧ s'.active = s.active ∧ s'.ptrs = s.ptrs := by
+  unfold incAfterEpochEnd at h
+  split at h
+  · simp only [Except.ok.injEq] at h; subst h; exact ⟨rfl, rfl, rfl⟩
+  · simp only at h
+    generalize hf : (fun g : Gauge => if (g.status == GStatus.upcoming && decide (g.start ≤ s.now)) = true then { g with status := GStatus.active } else g) = f at h
+    cases hd : incDistribute { s with gauges := s.gauges.map f } (List.filter (fun x => x.status == GStatus.active) (s.gauges.map f)) true with
+    | error x => simp [hd] at h
+    | ok s2 =>
+      simp only [hd, Except.ok.injEq] at h
+      have f1 := incDistribute_frame _ _ _ _ hd
+      have f2 := checkFinished_frame2 (List.filter (fun x => x.status == GStatus.active) (s.gauges.map f)) s2
+      rw [← h, f2]
+      simp only
+      rw [f1]
+      exact ⟨rfl, rfl, rfl⟩
+
+/-- `validateGauges` accepted the records: gauge ids strictly increasing -/
+theorem validateRecs_strict (s : State) : ∀ (rs : List Rec) (last : Nat) (seen : List Nat), validateRecs s rs last seen = true →
+    (∀ r ∈ rs, last ≤ r.gauge ∧ r.gauge ∉ seen) ∧ (rs.map (·.gauge)).Pairwise (· < ·) := by
+  intro rs
+  induction rs with
+  | nil => intro _ _ _; exact ⟨by simp, List.Pairwise.nil⟩
+  | cons r rest ih =>
+    intro last seen h
+    unfold validateRecs at h
+    by_cases h1 : seen.contains r.gauge = true
+    · rw [if_pos h1] at h; simp at h
+    · rw [if_neg h1] at h
+      by_cases h2 : r.gauge < last
+      · rw [if_pos h2] at h; simp at h
+      · rw [if_neg h2] at h
+        cases hg : getGauge s r.gauge with
+        | none => simp [hg] at h
+        | some g =>
+          simp only [hg] at h
+          by_cases h3 : (!g.perpetual) = true
+          · rw [if_pos h3] at h; simp at h
+          · rw [if_neg h3] at h
+            obtain ⟨i1, i2⟩ := ih _ _ h
+            have hns : r.gauge ∉ seen := by simpa using h1
+            constructor
+            · intro x hx
+              rcases List.mem_cons.1 hx with hh | hh
+              · rw [hh]; exact ⟨by omega, hns⟩
+              · obtain ⟨j1, j2⟩ := i1 x hh
+                exact ⟨by omega, fun hm => j2 (List.mem_cons_of_mem _ hm)⟩
+            · simp only [List.map_cons]
+              refine List.pairwise_cons.2 ⟨?_, i2⟩
+              intro y hy
+              obtain ⟨x, hx, he⟩ := List.mem_map.1 hy
+              obtain ⟨j1, j2⟩ := i1 x hx
+              have : x.gauge ≠ r.gauge := fun hh => j2 (by rw [hh]; exact List.mem_cons_self)
+              rw [← he]; omega
+
+
+theorem startStreams_len : ∀ (l : List Stream) (s s' : State), startStreams l s = .ok s' → s'.streams.length = s.streams.length := by
+  intro l
+  induction l with
+  | nil => intro s s' h; simp only [startStreams, Except.ok.injEq] at h; subst h; rfl
+  | cons st rest ih =>
+    intro s s' h
+    unfold startStreams at h
+    cases hsub : Coins.sub? st.coins st.distributed with
+    | none => simp [hsub] at h
+    | some remain =>
+      simp only [hsub] at h
+      split at h
+      · simp at h
+      · rw [ih _ _ h]; simp [setStream]
+
+/-- the full invariant of M-Incent (gauge side, stream structure, stream bound, static facts, id range) -/
+structure Inv (s : State) : Prop where
+  ginv : GInv s
+  struct : SStruct s
+  sb : SB s
+  stat : SStat s
+  len : s.streams.length < maxU64
+
+theorem streamerAfterEpochEnd_inv (s : State) (e : Nat) (s' : State) (hi : Inv s) (h : streamerAfterEpochEnd s e = .ok s') : Inv s' := by
+  obtain ⟨a, b⟩ := afterEpochEnd_SB s s' e hi.ginv hi.struct hi.stat hi.sb hi.len h
+  have hst := (streamerAfterEpochEnd_sstep s e s' hi.ginv hi.struct h).struct
+  refine ⟨(streamerAfterEpochEnd_spec s e s' hi.ginv h).1, hst, a, b, ?_⟩
+  have hm := (streamerAfterEpochEnd_sstep s e s' hi.ginv hi.struct h).mono
+  -- length is unchanged: derive it from the exact characterisation
+  unfold streamerAfterEpochEnd at h
+  cases hd : strDistribute s [e] (activeStreamsFor s e) maxU64 true with
+  | error x => simp [hd] at h
+  | ok s1 =>
+    simp only [hd, Except.ok.injEq] at h
+    have hin := activeStreamsFor_good s hi.struct e
+    have hst : ∀ st ∈ activeStreamsFor s e, StrictInc (st.recs.map (·.gauge)) ∧ st.id < maxU64 := by
+      intro st hm
+      have hmem : st ∈ s.streams := mem_of_getS (hin.2 st hm).1
+      exact ⟨hi.stat.recs st hmem, by have := id_le_length hi.struct.sid hmem; have := hi.len; omega⟩
+    obtain ⟨_, c1, _⟩ := strDistribute_core s _ _ _ _ s1 hi.ginv hi.struct hin hst hd
+    rw [← h]; simp only; rw [c1]; exact hi.len
+
+theorem incAfterEpochEnd_inv (s : State) (e : Nat) (s' : State) (hi : Inv s) (h : incAfterEpochEnd s e = .ok s') : Inv s' := by
+  obtain ⟨f1, f2, f3⟩ := incAfterEpochEnd_frame s e s' h
+  exact ⟨(incAfterEpochEnd_spec s e s' hi.ginv h).1, (incAfterEpochEnd_sstep s e s' hi.ginv hi.struct h).struct,
+    SB_congr f1 f2 f3 hi.sb, SStat_congr f1 hi.stat, by rw [f1]; exact hi.len⟩
+
+theorem streamerBeforeEpochStart_inv (s : State) (e : Nat) (s' : State) (hi : Inv s) (h : streamerBeforeEpochStart s e = .ok s') : Inv s' := by
+  obtain ⟨a, b⟩ := beforeEpochStart_SB s s' e hi.struct hi.stat hi.sb h
+  refine ⟨(streamerBeforeEpochStart_same s e s' h).ginv hi.ginv, (streamerBeforeEpochStart_sstep s e s' hi.struct h).struct, a, b, ?_⟩
+  unfold streamerBeforeEpochStart at h
+  cases ha : activateDue e (upcomingStreams s) s with
+  | error x => simp [ha] at h
+  | ok s1 =>
+    simp only [ha] at h
+    rw [startStreams_len _ _ _ h, (activateDue_exact e _ _ _ ha).1]; exact hi.len
+
+theorem applyHook_inv (f : State → Res) (s : State) (hi : Inv s) (hf : ∀ s', f s = .ok s' → Inv s') : Inv (applyHook f s) := by
+  unfold applyHook
+  cases h : f s with
+  | ok s' => exact hf s' h
+  | error e => exact hi
+
+theorem Inv_frame {s s' : State} (hi : Inv s) (h1 : s'.streams = s.streams) (h2 : s'.active = s.active) (h3 : s'.upcoming = s.upcoming)
+    (h4 : s'.ptrs = s.ptrs) (hg : GInv s') : Inv s' :=
+  ⟨hg, SStruct_congr h1 h2 h3 hi.struct, SB_congr h1 h2 h4 hi.sb, SStat_congr h1 hi.stat, by rw [h1]; exact hi.len⟩
+
+theorem epochTick_inv (s : State) (e : Nat) (hi : Inv s) : Inv (epochTick s e) := by
+  unfold epochTick
+  cases he : s.epochs[e]? with
+  | none => exact hi
+  | some ep =>
+    simp only
+    split
+    · exact hi
+    · split
+      · exact hi
+      · split
+        · have h1 : Inv { s with epochs := s.epochs.set e { ep with started := true, curStart := ep.startTime } } :=
+            Inv_frame hi rfl rfl rfl rfl (Same.ginv (s := s) ⟨rfl, rfl, rfl, rfl⟩ hi.ginv)
+          exact applyHook_inv _ _ h1 (fun s' h => streamerBeforeEpochStart_inv _ e s' h1 h)
+        · have a1 := applyHook_inv (fun x => streamerAfterEpochEnd x e) s hi (fun s' h => streamerAfterEpochEnd_inv s e s' hi h)
+          have a2 := applyHook_inv (fun x => incAfterEpochEnd x e) _ a1 (fun s' h => incAfterEpochEnd_inv _ e s' a1 h)
+          generalize applyHook (fun x => incAfterEpochEnd x e) (applyHook (fun x => streamerAfterEpochEnd x e) s) = s2 at a2 ⊢
+          have h1 : Inv { s2 with epochs := s2.epochs.set e { ep with curStart := ep.curStart + ep.dur } } :=
+            Inv_frame a2 rfl rfl rfl rfl (Same.ginv (s := s2) ⟨rfl, rfl, rfl, rfl⟩ a2.ginv)
+          exact applyHook_inv _ _ h1 (fun s' h => streamerBeforeEpochStart_inv _ e s' h1 h)
+
+theorem beginBlock_inv (s : State) (dt : Nat) (hi : Inv s) : Inv (beginBlock s dt) := by
+  unfold beginBlock
+  have h0 : Inv { s with now := s.now + dt } := Inv_frame hi rfl rfl rfl rfl (Same.ginv (s := s) ⟨rfl, rfl, rfl, rfl⟩ hi.ginv)
+  exact epochTick_inv _ 2 (epochTick_inv _ 1 (epochTick_inv _ 0 h0))
+
+theorem endBlock_inv (s s' : State) (hi : Inv s) (h : streamerEndBlock s = .ok s') : Inv s' := by
+  obtain ⟨a, b⟩ := endBlock_SB s s' hi.ginv hi.struct hi.stat hi.sb hi.len h
+  have h' := h
+  unfold streamerEndBlock at h'
+  have hin := activeStreams_good s hi.struct
+  have hst : ∀ st ∈ activeStreams s, StrictInc (st.recs.map (·.gauge)) ∧ st.id < maxU64 := by
+    intro st hm
+    have hmem := mem_streamsOf hm
+    exact ⟨hi.stat.recs st hmem, by have := id_le_length hi.struct.sid hmem; have := hi.len; omega⟩
+  obtain ⟨_, c1, _⟩ := strDistribute_core s _ _ _ _ s' hi.ginv hi.struct hin hst h'
+  exact ⟨(strDistribute_spec _ _ _ _ _ _ hi.ginv h').1, (strDistribute_streams s _ _ _ _ s' hi.ginv hi.struct hin h').1, a, b, by rw [c1]; exact hi.len⟩
+
 end DymVerif.Incent
